@@ -1,6 +1,7 @@
 ---- MODULE MCCompose ----
 EXTENDS Compose
 CapSmall == <<2, 3, 100>>
+CapSeg == <<6, 10, 100>>
 ArrAll == <<TRUE, TRUE, TRUE>>
 ArrNone1 == <<FALSE, TRUE, TRUE>>
 ArrNone2 == <<TRUE, FALSE, TRUE>>
